@@ -1151,6 +1151,16 @@ func (g *vGen) scenarioFallbackRefresh() {
 	rounds := 1 + r.Intn(2)
 	for round := 0; round < rounds; round++ {
 		ids := []int{}
+		// sometimes a keyed call stays in flight on the stand-in across its refresh: afterwards the
+		// stand-in is no longer the least-loaded READY channel
+		if r.Intn(2) == 0 {
+			add(func() string {
+				if cur() < 0 {
+					return ""
+				}
+				return fmt.Sprintf("pool pick call=%d picker=%d m=bound ctx=gcp dl=none req=k1/", call(), cur())
+			})
+		}
 		for j := 0; j < 3; j++ {
 			add(func() string {
 				if cur() < 0 {
